@@ -62,20 +62,33 @@ package flight12
 //@ end
 
 //@ func flight0Parse
+//@ watch ClientHelloSnapshots.Reset! ClientHelloSnapshots.RecordWire!
 //@ requires args: state != nil && cache != nil && cfg != nil && state.Common != nil && cfg.Log != nil
 //@ requires suites: forall(0, len(cfg.LocalCipherSuites), func(i int) bool { return !isNil(cfg.LocalCipherSuites[i]) })
-//@ ensures cookie-first: !cfg.InsecureSkipHelloVerify ==> result0 == 0 || result0 == Flight2 || result0 == Flight4b
-//@ ensures never-full-flight-unverified: !cfg.InsecureSkipHelloVerify ==> result0 != Flight4
+//@ ensures cookie-first: !old(cfg.InsecureSkipHelloVerify) ==> result0 == 0 || result0 == Flight2 || result0 == Flight4b
+//@ ensures never-full-flight-unverified: !old(cfg.InsecureSkipHelloVerify) ==> result0 != Flight4
 //@ ensures outcomes: result0 == 0 || result0 == Flight2 || result0 == Flight4 || result0 == Flight4b
+// The reference offer for the later cookie check is this ClientHello: older offers are dropped (Reset) before
+// the wire bytes are recorded, exactly once, and a ClientHello that cannot be recorded does not advance.
+// [engine limit: calledBefore() is not provable after a loop - the event clock is havocked without bound at loop
+//  headers and clock+1 may wrap - so the order is stated with always(): at the RecordWire call Reset had happened]
+//@ ensures first-hello-recorded-afresh: always("ClientHelloSnapshots.RecordWire!", "called(\"ClientHelloSnapshots.Reset!\")")
+//@ ensures first-hello-recorded-once: result0 != 0 ==> ncalls("ClientHelloSnapshots.RecordWire!") == 1 && retErr("ClientHelloSnapshots.RecordWire!", 0) == nil
 //@ end
 
 // Cookie check (Flight2): the server moves on to the ServerHello flight (Flight4) only after the
 // validator accepted the second ClientHello against the issued cookie.
 
+//@ define VARG(k) argAs("ValidateHelloVerifyRequestResponse", k, negotiation.ClientHelloSnapshot{})
+
 //@ func flight2Parse
 //@ watch ValidateHelloVerifyRequestResponse
-//@ requires args: state != nil && cache != nil && cfg != nil
+//@ requires args: state != nil && cache != nil && cfg != nil && state.Common != nil && cfg.Log != nil
+//@ requires suites: forall(0, len(cfg.LocalCipherSuites), func(i int) bool { return !isNil(cfg.LocalCipherSuites[i]) })
 //@ ensures outcomes: result0 == 0 || result0 == Flight2 || result0 == Flight4 || result0 == Flight4b
-//@ ensures cookie-verified: !cfg.InsecureSkipHelloVerify && result0 == Flight4 ==> called("ValidateHelloVerifyRequestResponse") && retErr("ValidateHelloVerifyRequestResponse", 0) == nil
-//@ ensures checked-against-issued-cookie: !cfg.InsecureSkipHelloVerify && result0 == Flight4 ==> sameSlice(argBytes("ValidateHelloVerifyRequestResponse", 2), state.Cookie)
+//@ ensures cookie-verified: !old(cfg.InsecureSkipHelloVerify) && result0 == Flight4 ==> called("ValidateHelloVerifyRequestResponse") && retErr("ValidateHelloVerifyRequestResponse", 0) == nil
+//@ ensures first-hello-is-the-reference: !old(cfg.InsecureSkipHelloVerify) && result0 == Flight4 ==> sameRef(VARG(0), state.RemoteClientHelloSnapshots.Initial())
+//@ ensures latest-hello-is-validated: !old(cfg.InsecureSkipHelloVerify) && result0 == Flight4 ==> sameRef(VARG(1), state.RemoteClientHelloSnapshots.Current())
+//@ ensures reference-is-the-recorded-first-hello: !old(cfg.InsecureSkipHelloVerify) && result0 == Flight4 && old(state.RemoteClientHelloSnapshots.Initial().Valid()) ==> sameRef(VARG(0), old(state.RemoteClientHelloSnapshots.Initial()))
+//@ ensures checked-against-issued-cookie: !old(cfg.InsecureSkipHelloVerify) && result0 == Flight4 ==> sameSlice(argBytes("ValidateHelloVerifyRequestResponse", 2), state.Cookie)
 //@ end
